@@ -127,6 +127,10 @@ def fun_src(name, f, ind="", recv="") -> str:
     if "classmethod" in f:
         deco, recv = f"{ind}@classmethod\n", "cls"
     ret = "" if "rmiss" in f else " -> int"
+    if "@docset" in f:      # a parameter without hint that the (NumPy style) docstring types as a bare `set`
+        ps = params_src(f, recv)
+        doc = f'{ind}    """Summary.\n\n{ind}    Parameters\n{ind}    ----------\n{ind}    ds : set\n{ind}        The ds.\n{ind}    """\n'
+        return f"{deco}{ind}def {name}({ps}, ds){ret}:\n{doc}{ind}    ...\n".replace("(a: int, ds)", "(ds, a: int = 0)")
     return f"{deco}{ind}def {name}({params_src(f, recv)}){ret}:\n{ind}    ...\n"
 
 
@@ -221,13 +225,13 @@ def main(v: Verdict) -> None:
     scs = generate(v, "TodoFlush", "C20_MC.cfg" if TIER == "quick" else "C20_MC_thorough.cfg", min_records=500)
     if not scs:
         return
-    mods = {"module": [HEAD], "class-methods": [HEAD], "class-attrs": [HEAD], "module-classes": [HEAD]}
-    modname = {"module": "mfun", "class-methods": "mmeth", "class-attrs": "mattr", "module-classes": "mcls"}
+    mods = {"module": [HEAD], "class-methods": [HEAD], "class-attrs": [HEAD], "module-classes": [HEAD], "module-doc": [HEAD], "class-methods-doc": [HEAD]}
+    modname = {"module": "mfun", "class-methods": "mmeth", "class-attrs": "mattr", "module-classes": "mcls", "module-doc": "mfundoc", "class-methods-doc": "mmethdoc"}
     expect = []          # (cont, locator, shape, prev features)
     for t, sc in enumerate(scs):
         cont, decls = sc["cont"], sc["decls"]
         prev = []
-        if cont == "module":
+        if cont in ("module", "module-doc"):
             for k, d in enumerate(decls):
                 name = nm(d["vis"], f"t{t}_{k}")
                 mods[cont].append(fun_src(name, set(d["f"])) + "\n")
@@ -243,26 +247,28 @@ def main(v: Verdict) -> None:
             body = []
             for k, d in enumerate(decls):
                 name = nm(d["vis"], f"x{k}")
-                if cont == "class-methods":
+                if cont in ("class-methods", "class-methods-doc"):
                     body.append(fun_src(name, set(d["f"]), "    ", "self") + "\n")
                 else:
                     body.append(attr_src(name, set(d["f"])))
                 expect.append((cont, ("member", f"K{t}", name), d, prev))
                 prev = d["f"]
             mods[cont].append(f"class K{t}:\n" + "".join(body) + "\n")
-    files = {"__init__.py": ""}
+    files, docfiles = {"__init__.py": ""}, {"__init__.py": ""}
     for cont, parts in mods.items():
-        files[modname[cont] + ".py"] = "\n".join(parts)
+        (docfiles if cont.endswith("-doc") else files)[modname[cont] + ".py"] = "\n".join(parts)
     pkg = write_pkg(files, PKG)
-    r = run_many([{"src": pkg, "opts": Opts(), "timeout": 900, "trace_todo": True}])[0]
-    if r.exit != "ok":
-        v.machinery(f"run failed: {r.exit} {r.exc} {r.frame} {r.msg}")
-        return
-    stubs = Stubs(r)
+    docpkg = write_pkg(docfiles, PKG + "doc")      # the documented declarations, analysed with the NumPy style
+    r, rdoc = run_many([{"src": pkg, "opts": Opts(), "timeout": 900, "trace_todo": True}, {"src": docpkg, "opts": Opts(docstyle="NUMPYDOC"), "timeout": 900}])
+    for rr in (r, rdoc):
+        if rr.exit != "ok":
+            v.machinery(f"run failed: {rr.exit} {rr.exc} {rr.frame} {rr.msg}")
+            return
     tops: dict[str, list] = {}
-    for rel, f in stubs.files.items():
-        for d in f.members:
-            tops.setdefault(d.pyname, []).append(d)
+    for rr in (r, rdoc):
+        for rel, f in Stubs(rr).files.items():
+            for d in f.members:
+                tops.setdefault(d.pyname, []).append(d)
     obs = []
     for cont, loc, shape, prev in expect:
         if not shape["vis"]:
